@@ -26,6 +26,9 @@ SHAPES = [
     dict(tr=[(0, 0, 0), (1, 0, 0), (2, 0, 0), (2, 1, 0)], ch=[1, 1, 0], fail=[(1, 0, 0)]),
     dict(tr=[(0, 0, 0), (1, 0, 1), (0, 1, 0), (1, 1, 1)], ch=[1, 2], fail=[]),
 ]
+# the same learner class on a batched and on an unbatched environment (what SafeLearner learns about one must not leak to the other)
+BATCH_SHAPES = [dict(tr=[(0, 0, 0), (1, 0, 0), (1, 1, 0)], ch=[0, 0], fail=[], batch=[1]),
+                dict(tr=[(0, 0, 0), (1, 1, 0), (2, 0, 0)], ch=[1, 1, 0], fail=[], batch=[0, 1])]
 IDCOLS = {"environment_id", "learner_id", "evaluator_id"}
 
 
@@ -64,7 +67,7 @@ def run(ctx):
     spec_runs(ctx)
     d = os.path.join(ctx.scratch, "runs"); os.makedirs(d, exist_ok=True)
     traces = []; meta = []
-    shapes = SHAPES[:ctx.pick(4, 6)]
+    shapes = SHAPES[:ctx.pick(4, 6)] + BATCH_SHAPES
     wheres = ["start", "middle", "predict", "learn"]
     for si, shape in enumerate(shapes):
         for where in (wheres if shape["fail"] else [None]):
@@ -72,7 +75,6 @@ def run(ctx):
             # solo references: each triple alone, fresh objects
             solo = {}
             for t in shape["tr"]:
-                one = dict(tr=[t], ch=shape["ch"], fail=shape["fail"])
                 full = explib.build(dict(shape, tr=shape["tr"]), where=where)       # same object parameters as in the full experiment
                 idx = shape["tr"].index(t)
                 explib.quiet_ctx()
